@@ -34,8 +34,17 @@ def main(argv=None):
         with open(args.replay) as fh:
             body = json.load(fh)
         case = common.from_jsonable(body['case'])
+        if isinstance(case, dict) and case.get('_ambient_optimize') and not sys.flags.optimize:
+            # met under `python -O`: replayed under `python -O`
+            os.execv(sys.executable, [sys.executable, '-O', '-m', 'vf.run', prop, '--replay', args.replay])
+        if isinstance(case, dict):
+            case.pop('_ambient_optimize', None)
         if isinstance(case, dict) and case.pop('_ambient_logging', False):
             common.set_logging(True)
+        if isinstance(case, dict) and case.pop('_ambient_warnings', False):
+            import warnings
+            warnings.simplefilter('ignore')
+            common.set_warnings(True)
         try:
             mod.replay(case)
         except common.Violation as v:
